@@ -101,6 +101,30 @@ Theorem C09_unchecked_store_refuted :
 Proof. exact always_refuted. Qed.
 Print Assumptions C09_unchecked_store_refuted.
 
+(* the per-run importer's table also keeps MARKERS (nil: "the dependencies of this package have nothing under that name"); the
+   reader serves an entry only when it is not nil (regenerated: class `absent` is given only then, and only at that table). For
+   every first stage (the search among the dependencies), second stage (the engine-wide lookup) and sequence of lookups, from any
+   sound memo, each lookup answers what the two stages answer without a memo; a reader that served the marker would not *)
+Theorem C09_markers_of_the_per_run_table_are_history_independent :
+  absent_sites_ok = true /\
+  forall (key ans : Type) (key_eqb : key -> key -> bool), (forall a b, reflect (a = b) (key_eqb a b)) ->
+  forall (first : key -> option ans) (second : key -> ans) (keep : ans -> bool) (ks : list key) (m : memo key ans),
+    msound key ans key_eqb first m ->
+    fst (asks2 key ans key_eqb first second keep None m ks) = map (resolve2 key ans first second) ks.
+Proof.
+  split; [exact cache_markers_confined|].
+  intros key ans key_eqb Hspec first second keep ks m S.
+  exact (proj1 (memo_history_independent key ans key_eqb Hspec first second keep ks m S)).
+Qed.
+Print Assumptions C09_markers_of_the_per_run_table_are_history_independent.
+
+Theorem C09_marker_served_refuted :
+  forall (key ans : Type) (key_eqb : key -> key -> bool), (forall a b, reflect (a = b) (key_eqb a b)) ->
+  forall (first : key -> option ans) (second : key -> ans) (keep : ans -> bool) k junk, first k = None ->
+    fst (asks2 key ans key_eqb first second keep (Some junk) [] [k; k]) = [second k; junk].
+Proof. exact marker_served_refuted. Qed.
+Print Assumptions C09_marker_served_refuted.
+
 (* what is carried goes where it belongs: the runner's field of each role is the RunnerState's field of that role (the
    matcher state of the rule loop and the one of the Contains() searches are not mixed up, the operand stack is the eval
    environment's) *)
